@@ -42,12 +42,23 @@ def obligations():
                 yield ob, key
 
 
-def check_impl(obls, ctx, decision="permit"):
+_SHARED = BasicObligationChecker()   # one long-lived instance, as a Guard holds it: its answers may not depend on earlier calls
+
+
+def _call(checker, obls, ctx, decision):
     try:
-        ok, ch = BasicObligationChecker().check({"decision": decision, "obligations": obls}, real.Context(attrs=ctx))
+        ok, ch = checker.check({"decision": decision, "obligations": obls}, real.Context(attrs=ctx))
         return {"ok": bool(ok), "challenge": ch}
     except Exception as e:  # noqa: BLE001
         return {"raised": type(e).__name__}
+
+
+def check_impl(obls, ctx, decision="permit"):
+    fresh = _call(BasicObligationChecker(), obls, ctx, decision)
+    shared = _call(_SHARED, obls, ctx, decision)
+    if shared != fresh:
+        return {"stateful": True, "fresh": fresh, "shared_instance": shared}
+    return fresh
 
 
 def run_cases(run: lib.Run, audit: dict):
@@ -85,9 +96,39 @@ def run_cases(run: lib.Run, audit: dict):
             if meet & 2 and k2:
                 ctx[k2] = good[k2]
             add([o1, o2], ctx)
+    # several obligations of the SAME type with different attrs: each one is a requirement of its own
+    same = [[{"type": "require_level", "attrs": {"min": 1}}, {"type": "require_level", "attrs": {"min": 3}}],
+            [{"type": "require_level", "attrs": {"min": 3}}, {"type": "require_level", "attrs": {"min": 1}}],
+            [{"type": "require_consent", "attrs": {"key": "k"}}, {"type": "require_consent", "attrs": {"key": "tos"}}],
+            [{"type": "require_consent"}, {"type": "require_consent", "attrs": {"key": "tos"}}],
+            [{"type": "require_reauth", "attrs": {"max_age": 300}}, {"type": "require_reauth", "attrs": {"max_age": 5}}],
+            [{"type": "require_mfa", "on": "deny"}, {"type": "require_mfa"}],
+            [{"type": "require_mfa", "on": "advice"}, {"type": "require_mfa", "on": "permit"}],
+            [{"type": "http_challenge", "on": "deny", "attrs": {"scheme": "Basic"}}, {"type": "http_challenge", "attrs": {"scheme": "Digest"}}],
+            [{"type": "require_geo"}, {"type": "require_geo"}, {"type": "require_captcha"}],
+            [{"type": "require_level", "attrs": {"min": "x"}}, {"type": "require_level", "attrs": {"min": 2}}]]
+    same_ctx = [{}, {"auth_level": 2, "consent": {"k": True}, "reauth_age_seconds": 10, "mfa": False, "captcha_passed": False},
+                {"auth_level": 2, "consent": {"k": True, "tos": 0}, "reauth_age_seconds": 100, "mfa": True, "captcha_passed": True},
+                {"auth_level": 5, "consent": {"k": 1, "tos": 1}, "reauth_age_seconds": 1, "mfa": True, "captcha_passed": True}]
+    for obs in same:
+        for ctx in same_ctx:
+            add(obs, ctx)
+    # random lists of 3–5 obligations (duplicates of a type included) against random contexts
+    import random as _random
+    rr = _random.Random(run.seed * 31 + 7)
+    pool_obs = [ob for ob, _ in singles]
+    for _ in range(300 if quick else 3000):
+        obs = [pool_obs[rr.randrange(len(pool_obs))] for _ in range(rr.randrange(3, 6))]
+        ctx = {}
+        for k, vals in (("mfa", [True, False, 1]), ("auth_level", [0, 2, 3, "3", None]), ("consent", [True, False, {"k": 1}, {"tos": 1, "k": 0}]),
+                        ("tos_accepted", [True, False]), ("captcha_passed", [True, 0]), ("reauth_age_seconds", [0, 30, 61, "30"]),
+                        ("age_verified", [True, False])):
+            if rr.random() < 0.6:
+                ctx[k] = vals[rr.randrange(len(vals))]
+        add(obs, ctx)
     answers = proto.run_driver(cmds)
     for (obls, ctx, decision, out), model in zip(batch, answers):
-        cls = "raised" if "raised" in out else ("met" if out["ok"] else f"unmet:{out['challenge']}")
+        cls = "stateful" if "stateful" in out else "raised" if "raised" in out else ("met" if out["ok"] else f"unmet:{out['challenge']}")
         run.count("checker:" + cls)
         run.case([obls, ctx, decision], "ok" in out and not out["ok"], {"obligations": obls, "ctx": ctx, "impl": out})
         if out != model:
@@ -110,6 +151,12 @@ def run_cases(run: lib.Run, audit: dict):
                 if vd != "builtin":
                     cfg["checker"] = vd
                 cases.append((pol_ob(obs), reqf(ctx), cfg))
+    # failing / recording sinks around an unmet and a met obligation: a sink is only a consumer of the finished decision
+    for sink in ({"metrics": True, "sink_mode": "raise"}, {"logger": True, "sink_mode": "raise"}, {"metrics": True, "logger": True},
+                 {"metrics": True, "logger": True, "sink_mode": "raise"}):
+        for obs in same[:3] + [[{"type": "require_mfa"}], [{"type": "http_challenge", "attrs": {"scheme": "Basic"}}]]:
+            for ctx in same_ctx[:3]:
+                cases.append((pol_ob(obs), reqf(ctx), {"strict": False, **sink}))
     deny_pol = {"algorithm": "deny-overrides", "rules": [{"id": "d", "effect": "deny", "actions": ["read"], "resource": {"type": "doc"},
                                                           "obligations": [{"type": "http_challenge", "on": "deny", "attrs": {"scheme": "Basic"}}]}]}
     cases.append((deny_pol, reqf({}), {"strict": False}))
@@ -128,7 +175,8 @@ def run_cases(run: lib.Run, audit: dict):
 def check(run: lib.Run, audit: dict) -> int:
     run.rule = ("exhaustive: 9 obligation types × every attrs shape (valid/invalid/absent/non-dict) × 6 `on` values × 25 context values (absent, null, "
                 "booleans, numbers incl. NaN/Inf/10^400/fractions, numeric and non-numeric strings, lists, objects) through the checker; all ordered "
-                "pairs of 8 obligations × 4 contexts (first-failure order); through Guard × {built-in, raising, 10 custom verdicts} × sync/async. "
+                "pairs of 8 obligations × 4 contexts (first-failure order); lists with several obligations of one type; random lists of 3–5 obligations; "
+                "every call answered by a fresh and by one long-lived checker instance; through Guard (also with raising/recording metric and log sinks) × {built-in, raising, 10 custom verdicts} × sync/async. "
                 "non-trivial = the obligation is unmet / the permit is revoked")
     run.exhaustive = True
     run.assumptions = ["Context.attrs is an object or null", "float(str) is an oracle computed by the harness"]
